@@ -369,11 +369,11 @@ func (s *Writer) prepareIntroducePersist(persists chan *persistIntroduction, new
 	case persists <- persist:
 	}
 
-	select {
-	case <-s.closeCh:
-		return segment.ErrClosed
-	case <-persist.applied:
-	}
+	// the introducer has taken this introduction and always completes the
+	// one it is working on, even when the index is being closed; it owns
+	// newSegments until then, so wait for it before the deferred cleanup
+	// looks at what was not swapped into the root
+	<-persist.applied
 
 	return nil
 }
